@@ -50,9 +50,11 @@ import (
 	"go/types"
 	"log"
 	"os"
+	"path/filepath"
 	"reflect"
 	"runtime"
 	"slices"
+	"strings"
 	"sync"
 	"sync/atomic"
 	_ "unsafe"
@@ -94,6 +96,7 @@ type interpreter struct {
 	panicActive        bool
 	panicSite          string
 	panicInner         string
+	panicStack         string
 	inInit             int
 	cfg                *Config
 }
@@ -113,6 +116,7 @@ type frame struct {
 	env              []value // dynamic values of SSA variables, indexed by info.index
 	info             *fnInfo
 	envSet           []bool
+	curInstr         ssa.Instruction
 	locals           []value
 	defers           *deferred
 	result           value
@@ -710,6 +714,7 @@ func runFrame(fr *frame) {
 			fr.i.panicActive = true
 			fr.i.panicSite = ""
 			fr.i.panicInner = fr.fn.String()
+			fr.i.panicStack = frameStack(fr)
 		}
 		if fr.i.panicSite == "" && isAcraFn(fr.fn) {
 			fr.i.panicSite = fr.fn.String()
@@ -737,6 +742,7 @@ func runFrame(fr *frame) {
 					fmt.Fprintln(os.Stderr, "\t", instr)
 				}
 			}
+			fr.curInstr = instr
 			if ex := fr.i.ex; ex != nil {
 				ex.curFn = fr.fn
 				ex.steps++
@@ -902,4 +908,18 @@ func Interpret(mainpkg *ssa.Package, mode Mode, sizes types.Sizes, filename stri
 		exitCode = 1
 	}
 	return
+}
+
+// frameStack renders the interpreted call stack (innermost first) for diagnostics.
+func frameStack(fr *frame) string {
+	var sb strings.Builder
+	for f, n := fr, 0; f != nil && n < 12; f, n = f.caller, n+1 {
+		pos := ""
+		if f.curInstr != nil && f.curInstr.Pos().IsValid() {
+			p := f.fn.Prog.Fset.Position(f.curInstr.Pos())
+			pos = fmt.Sprintf(" %s:%d", filepath.Base(p.Filename), p.Line)
+		}
+		fmt.Fprintf(&sb, "%s%s <- ", f.fn.String(), pos)
+	}
+	return sb.String()
 }
